@@ -92,6 +92,7 @@ fn main() {
         Box::new(BufWriter::with_capacity(1 << 20, std::fs::File::from_raw_fd(orig)))
     };
     let mut extra = Vec::new();
+    let mut variant = String::new();
     let mut i = 2;
     while i < args.len() {
         match args[i].as_str() {
@@ -102,6 +103,7 @@ fn main() {
                 shard = (p[0].parse().unwrap(), p[1].parse().unwrap());
                 i += 2;
             }
+            "--variant" => { variant = args[i + 1].clone(); i += 2; }
             "--out" => {
                 out = Box::new(BufWriter::with_capacity(1 << 20, std::fs::File::create(&args[i + 1]).unwrap()));
                 i += 2;
@@ -111,7 +113,7 @@ fn main() {
     }
     // silence the default panic message; cases record panics themselves
     std::panic::set_hook(Box::new(|_| {}));
-    let mut ctx = Ctx { seed, thorough, rng: Rng::new(seed ^ (shard.0 << 32)), out, shard, n: 0, args: extra };
+    let mut ctx = Ctx { seed, thorough, rng: Rng::new(seed ^ (shard.0 << 32)), out, shard, n: 0, args: extra, variant };
     match prop.as_str() {
         "eval" => {
             // replay mode: request lines on stdin (anything after " => " is ignored)
